@@ -1,6 +1,6 @@
 (* Corr/C13.v — correspondence glue: replays a history observed on the real storage through the KV model.
 
-   case  = VL [ VN mode ; variant ; VN tol ; VL ops ; VL outs ]
+   case  = VL [ VN mode ; variant ; VN tol ; VL ops ; VL outs ; VN scale? ]
      mode 0: the answers must be those of MemImpl in the given variant (the probed behaviour of the tree)
      mode 1: the answers must be those of the Spec (reference map; linearization witnesses of concurrent runs)
      mode 2: the answers must be those of the Spec with Redis' "an empty list/hash does not exist" (Redis-flavoured reference)
@@ -112,15 +112,21 @@ Definition drop_empty (s : kvmap) : kvmap :=
            | Some it => if is_empty_collection (val it) then None else Some it
            | None => None
            end.
-Definition redis_spec_step (s : kvmap) (now : N) (o : op) : out * kvmap * N :=
-  let '(r, s1, now1) := spec_step DefaultDataTTL_ms s now o in (r, drop_empty s1, now1).
+Definition redis_spec_step (D : N) (s : kvmap) (now : N) (o : op) : out * kvmap * N :=
+  let '(r, s1, now1) := spec_step D s now o in (r, drop_empty s1, now1).
 
-Definition model_outs (mode : N) (V : kvariant) (h : list op) : list out :=
+(* D: DefaultDataTTL in the case's time unit.  The Redis runs use a virtual clock in which one model millisecond is
+   [scale] real milliseconds (so that whole-second Redis lifetimes are exact): the regenerated constant is divided by the
+   case's scale (absent / 0 = 1). *)
+Definition model_outs (mode : N) (V : kvariant) (D : N) (h : list op) : list out :=
   match mode with
-  | 0 => outs_of (mem_run DefaultDataTTL_ms V empty NOW0 h)
-  | 1 => outs_of (spec_run DefaultDataTTL_ms empty NOW0 h)
-  | _ => outs_of (run_with redis_spec_step empty NOW0 h)
+  | 0 => outs_of (mem_run D V empty NOW0 h)
+  | 1 => outs_of (spec_run D empty NOW0 h)
+  | _ => outs_of (run_with (redis_spec_step D) empty NOW0 h)
   end.
+
+Definition case_D (v : tval) : N :=
+  let sc := vn (vnth 5 v) in if sc =? 0 then DefaultDataTTL_ms else DefaultDataTTL_ms / sc.
 
 Definition check (v : tval) : bool :=
   let mode := vn (vnth 0 v) in
@@ -128,7 +134,7 @@ Definition check (v : tval) : bool :=
   let tol := vn (vnth 2 v) in
   let h := map dec_op (vl (vnth 3 v)) in
   let os := map dec_out (vl (vnth 4 v)) in
-  all2 (out_matches tol) (model_outs mode V h) os.
+  all2 (out_matches tol) (model_outs mode V (case_D v) h) os.
 
 (* ---- predicted answers (diagnostics, and the Spec side of the Redis comparison) ---- *)
 Definition enc_z (z : Z) : list tval :=
@@ -161,4 +167,4 @@ Definition enc_out (o : out) : tval :=
 Definition predict (v : tval) : tval :=
   let V := dec_variant (vnth 1 v) in
   let h := map dec_op (vl (vnth 3 v)) in
-  VL [VL (map enc_out (model_outs 0 V h)); VL (map enc_out (model_outs 1 V h))].
+  VL [VL (map enc_out (model_outs 0 V (case_D v) h)); VL (map enc_out (model_outs 1 V (case_D v) h))].
